@@ -45,23 +45,28 @@ def byteOffset : Nat → Text → Nat
   | _ + 1, [] => 0
   | i + 1, c :: cs => c.utf8Size + byteOffset i cs
 
+/-- the byte range of `new` that one op of `similar` contributes in `line_diff` (`prev` = the previous op):
+    a deletion marks the character after it (the last one at the end of the line), consecutive deletions only once -/
+def opRange (new : Text) (prev : Option Op) (op : Op) : Option (Nat × Nat) :=
+  let n := new.length
+  match op with
+  | .delete _ _ ni =>
+    if (match prev with | some p => !p.isDelete | none => true) then
+      let idx := min (n - 1) ni
+      let s := byteOffset idx new
+      some (s, max (byteOffset (min (idx + 1) n) new) (s + 1))
+    else none
+  | .insert _ ni nl => some (byteOffset ni new, byteOffset (ni + nl) new)
+  | .replace _ _ ni nl => some (byteOffset ni new, byteOffset (ni + nl) new)
+  | .equal .. => none
+
 /-- `line_diff` over the op list that `similar` produced for `(old, new)` (byte ranges in `new`) -/
 def lineDiffOps (new : Text) : List Op → Option Op → List (Nat × Nat) → List (Nat × Nat)
   | [], _, acc => acc
   | op :: ops, prev, acc =>
-    let n := new.length
-    let acc' := match op with
-      | .delete _ _ ni =>
-        if (match prev with | some p => !p.isDelete | none => true) then
-          let idx := min (n - 1) ni
-          let s := byteOffset idx new
-          let e := max (byteOffset (min (idx + 1) n) new) (s + 1)
-          pushOrMerge acc (s, e)
-        else acc
-      | .insert _ ni nl => pushOrMerge acc (byteOffset ni new, byteOffset (ni + nl) new)
-      | .replace _ _ ni nl => pushOrMerge acc (byteOffset ni new, byteOffset (ni + nl) new)
-      | .equal .. => acc
-    lineDiffOps new ops (some op) acc'
+    lineDiffOps new ops (some op) (match opRange new prev op with
+      | some r => pushOrMerge acc r
+      | none => acc)
 
 /-- state of the hunk walk in `line_changes` -/
 structure St where
